@@ -795,7 +795,7 @@ impl ContinuityStore {
         }
 
         let continuity_id = Uuid::new_v4().to_string();
-        self.create_continuity(workspace, Some(continuity_id), None, true)
+        self.create_continuity(workspace, Some(continuity_id), None, true, None)
     }
 
     pub fn branch(
@@ -874,31 +874,19 @@ impl ContinuityStore {
         };
 
         let workspace = workspace_key(&self.workspace_root);
-        let thread_id = self.create_continuity(workspace, None, title, false)?;
-
-        let event = Event {
-            id: Uuid::new_v4().to_string(),
-            session_id: thread_id.clone(),
-            timestamp_ms: now_ms(),
-            seq: 1,
-            kind: EventKind::ContinuityBranched {
+        let thread_id = self.create_continuity(
+            workspace,
+            None,
+            title,
+            false,
+            Some(EventKind::ContinuityBranched {
                 parent_thread_id: parent_thread_id.to_string(),
                 parent_seq,
                 parent_message_id: parent_message_id.clone(),
                 actor_id,
                 origin,
-            },
-        };
-        self.event_log
-            .append(&event)
-            .map_err(|err| format!("append continuity_branched: {err}"))?;
-        self.stream_cache.append_best_effort(&event);
-        let _ = self.sender.send(event.clone());
-
-        self.next_seq
-            .lock()
-            .expect("continuity seq mutex")
-            .insert(thread_id.clone(), 2);
+            }),
+        )?;
 
         Ok((thread_id, parent_seq, parent_message_id))
     }
@@ -983,9 +971,6 @@ impl ContinuityStore {
             (head_seq, last_message)
         };
 
-        let workspace = workspace_key(&self.workspace_root);
-        let thread_id = self.create_continuity(workspace, None, title, false)?;
-
         if summary_artifact_id.is_none() {
             if let Some(markdown) = summary_markdown.as_ref() {
                 let bundle = HandoffContextBundleV1::new_source_cut(
@@ -1001,12 +986,13 @@ impl ContinuityStore {
             }
         }
 
-        let event = Event {
-            id: Uuid::new_v4().to_string(),
-            session_id: thread_id.clone(),
-            timestamp_ms: now_ms(),
-            seq: 1,
-            kind: EventKind::ContinuityHandoffCreated {
+        let workspace = workspace_key(&self.workspace_root);
+        let thread_id = self.create_continuity(
+            workspace,
+            None,
+            title,
+            false,
+            Some(EventKind::ContinuityHandoffCreated {
                 from_thread_id: from_thread_id.to_string(),
                 from_seq,
                 from_message_id: from_message_id.clone(),
@@ -1014,18 +1000,8 @@ impl ContinuityStore {
                 summary_markdown,
                 actor_id,
                 origin,
-            },
-        };
-        self.event_log
-            .append(&event)
-            .map_err(|err| format!("append continuity_handoff_created: {err}"))?;
-        self.stream_cache.append_best_effort(&event);
-        let _ = self.sender.send(event.clone());
-
-        self.next_seq
-            .lock()
-            .expect("continuity seq mutex")
-            .insert(thread_id.clone(), 2);
+            }),
+        )?;
 
         Ok((thread_id, from_seq, from_message_id))
     }
@@ -3507,9 +3483,14 @@ impl ContinuityStore {
         continuity_id: Option<String>,
         title: Option<String>,
         set_as_default: bool,
+        lineage: Option<EventKind>,
     ) -> Result<String, String> {
         let continuity_id = continuity_id.unwrap_or_else(|| Uuid::new_v4().to_string());
         let timestamp_ms = now_ms();
+        // The new id becomes visible (broadcast, index) while its first frames are still being
+        // written. Hold the seq lock from the first frame until `next_seq` is seeded, so that a
+        // concurrent append to the new thread waits instead of taking a seq used here.
+        let mut next_seq = self.next_seq.lock().expect("continuity seq mutex");
         let created = Event {
             id: Uuid::new_v4().to_string(),
             session_id: continuity_id.clone(),
@@ -3525,6 +3506,23 @@ impl ContinuityStore {
             .map_err(|err| format!("append continuity_created: {err}"))?;
         self.stream_cache.append_best_effort(&created);
         let _ = self.sender.send(created.clone());
+        next_seq.insert(continuity_id.clone(), 1);
+
+        if let Some(kind) = lineage {
+            let event = Event {
+                id: Uuid::new_v4().to_string(),
+                session_id: continuity_id.clone(),
+                timestamp_ms: now_ms(),
+                seq: 1,
+                kind,
+            };
+            self.event_log
+                .append(&event)
+                .map_err(|err| format!("append continuity lineage: {err}"))?;
+            self.stream_cache.append_best_effort(&event);
+            let _ = self.sender.send(event.clone());
+            next_seq.insert(continuity_id.clone(), 2);
+        }
 
         {
             let mut index = self.index.lock().expect("continuity index mutex");
@@ -3542,11 +3540,6 @@ impl ContinuityStore {
             save_index(&index_path(&self.data_dir), &index)
                 .map_err(|err| format!("save continuity index: {err}"))?;
         }
-
-        self.next_seq
-            .lock()
-            .expect("continuity seq mutex")
-            .insert(continuity_id.clone(), 1);
 
         Ok(continuity_id)
     }
